@@ -321,3 +321,44 @@ def replay_scenario(ctx, rep, comparators):
         return
     s = scenario_load(sd)
     check(ctx, "replay", [s], comparators)
+
+
+def comparators_for(cb):
+    c = [cmp_exit, cmp_names]
+    if cb in ("csvdump", "unspentcsvdump", "balances"):
+        c += [cmp_rows, cmp_totals] if cb != "balances" else [cmp_rows]
+    elif cb == "opreturn":
+        c.append(cmp_opreturn)
+    else:
+        c.append(cmp_stats)
+    return c
+
+
+def literal_family(ctx, callbacks, coins=("bitcoin", "litecoin"), verify=False):
+    """literal-directed effort: for every integer literal that is NEW in /repo's sources (none on the unchanged tree), whole-program runs
+    on chains built around it (gen_chain.literal_chain) are compared with the model like any other scenario"""
+    from . import build as B, gen_chain as GC
+    lits = B.new_literals()
+    if not lits:
+        return
+    ctx.notes.append("literal-directed scenarios for new source literals: %s" % lits)
+    r = ctx.sub_rnd("literals")
+    for L in lits:
+        for variant in (0, 1, 2, 3):
+            if variant == 1 and L > 70000:
+                continue
+            if variant == 3 and L >= (1 << 40):
+                continue
+            for cb in callbacks:
+                coin = coins[(variant + len(cb)) % len(coins)]
+                try:
+                    blocks, first = GC.literal_chain(r, coin, L, variant)
+                except Exception as e:      # a literal no chain can be built around
+                    ctx.notes.append("literal %d: %r" % (L, e))
+                    continue
+                s = K.Scenario(coin=coin, callback=cb)
+                GC.simple_layout(s, blocks, first_height=first)
+                s.start = first
+                s.verify = verify and first > 0
+                s.meta = {"literal": L, "variant": variant}
+                check(ctx, "literal:%d" % L, [s], comparators_for(cb), nontrivial=lambda s, m: True)
